@@ -93,5 +93,23 @@ def handle : List String → Option String
         some s!"ok v={showVer (negotiate ⟨ofRank p.2.1, ofRank p.2.2⟩ peer)} ctrl={showVer (negotiate ⟨.tls10, .tls13⟩ peer)}"
       | none => some "no-such-path"
     | _, _, _ => some "bad-op"
+  | "tlsvers" :: path :: ranges =>
+    -- a history of peers for one context path: `lo hi lo hi …` → the version each step negotiates
+    match path.toNat?, ranges.mapM String.toNat? with
+    | some pid, some rs =>
+      match Gen.contextPaths.find? (fun p => p.1 == pid) with
+      | some p =>
+        let rec go : List Nat → Option (List String)
+          | [] => some []
+          | lo :: hi :: rest =>
+            match verOfRank? lo, verOfRank? hi, go rest with
+            | some l, some h, some tl => some (showVer (negotiate ⟨ofRank p.2.1, ofRank p.2.2⟩ ⟨l, h⟩) :: tl)
+            | _, _, _ => none
+          | _ => none
+        match go rs with
+        | some vs => some s!"ok {",".intercalate vs}"
+        | none => some "bad-op"
+      | none => some "no-such-path"
+    | _, _ => some "bad-op"
   | _ => none
 end NauyacaVerif.Drv.PumpD
